@@ -84,7 +84,7 @@ func TestC24(t *testing.T) {
 	run.Require("updates after a gap of >= 3 days", run.Counter("updates_after_gap_of_3_days_or_more") > 0)
 	run.Require("reputations idle for 10 epochs", run.Counter("reputations_idle_for_10_epochs") > 0)
 	run.Require(">= 2 clusters", len(cl) >= 2)
-	run.Finish("generated histories (3..30 providers, 6-8 consumers on three plans => several clusters) in which relay payments always carry a QoS excellence report: latency / sync from 0 and 1e-18 to 1e18, availability from 1e-18 to 1, zero availability, identical reports to all paired providers (ties), perfect reports (score 0), several reports per tx, CU weights 0..5000, stake changes; governance changes of ReputationHalfLifeFactor / VarianceStabilizationPeriod / LatencyOverSyncFactor; epoch starts under (gap / half-life) ratios 0.5..160 and factors 0 and 2^62; idle runs of epochs with block gaps up to 3 days; one history shape in four also submits availability > 1 and metrics up to 9e37. After every epoch-start block: every stored reputation must Validate, every version of every stored pairing score must lie in [0.5, 2], and inside each (chain, cluster) the providers whose TimeLastUpdated equals the block time are sorted by their stored QoS score (Score.Score.Num / Denom, the value the benchmark code ranks) and a strictly better score must not have a lower pairing score; after every accepted relay payment with a report every stored reputation must Validate. A non-trivial case is one (history, epoch start, chain, cluster) group with >= 2 updated providers, >= 2 distinct QoS scores and >= 1 provider that took a report in the ended epoch",
+	run.Finish("generated histories (3..30 providers, 6-8 consumers on three plans => several clusters) in which relay payments always carry a QoS excellence report: latency / sync from 0 and 1e-18 to the validation bound 1e9 (and rejected ones above it up to 9e18), availability from 1e-18 to 1, zero availability, identical reports to all paired providers (ties), perfect reports (score 0), several reports per tx, CU weights 0..5000, stake changes; governance changes of ReputationHalfLifeFactor / VarianceStabilizationPeriod / LatencyOverSyncFactor; epoch starts under (gap / half-life) ratios 0.5..160 and factors 0 and 2^62; idle runs of epochs with block gaps up to 3 days; one history shape in four also submits availability > 1 and metrics up to 9e37 (rejected by the report validation since the fixes). After every epoch-start block: every stored reputation must Validate, every version of every stored pairing score must lie in [0.5, 2], and inside each (chain, cluster) the providers whose TimeLastUpdated equals the block time are sorted by their stored QoS score (Score.Score.Num / Denom, the value the benchmark code ranks) and a strictly better score must not have a lower pairing score; after every accepted relay payment with a report every stored reputation must Validate. A non-trivial case is one (history, epoch start, chain, cluster) group with >= 2 updated providers, >= 2 distinct QoS scores and >= 1 provider that took a report in the ended epoch",
 		10*nHist,
 		"the order clause reads the QoS score from the stored Reputation after the update (the same Frac the code resolves and sorts), never from raw reports",
 		"block gaps <= 3 days and epoch spans <= 7 days (driver realism bounds); decay ratios beyond that are reached through the ReputationHalfLifeFactor param, kept >= 3600 outside the single controlled epoch so that e^(t/h) stays representable")
